@@ -260,6 +260,13 @@ def run(ctx) -> None:
         ctx.require(len(splits) >= 1, f"_parse_cfg_file_patterns: the value is not split into lines: `{txt[:80]}`")
         positional = [n for n in ast.walk(expr) if (isinstance(n, ast.Subscript) and (isinstance(n.slice, ast.Slice) or isinstance(n.slice, ast.Constant) and isinstance(n.slice.value, int)))
                       or (isinstance(n, ast.Call) and unparse(n.func).split(".")[-1] in ("islice", "next", "pop", "enumerate"))]
+        # the same list a TOML array gives: a list, not a one-shot iterator (the glob expansion hands the object to every matched file)
+        top = shapes.resolve_alias(fpf, pe) if lc is None else lc
+        one_shot = isinstance(top, ast.GeneratorExp) or (isinstance(top, ast.Call) and unparse(top.func) in ("filter", "map", "iter", "zip", "reversed", "itertools.chain"))
+        ctx.check("R5", not one_shot, "_parse_cfg_file_patterns: the patterns of an entry are a list (can be read once per matched file)",
+                  "config._parse_cfg_file_patterns: the patterns of an entry are a one-shot iterator",
+                  f"`{unparse(top)[:80]}`: for a glob entry that matches several files only the first file gets the patterns, the others an exhausted iterator - the same entry in a TOML config gives every file its patterns",
+                  loc=fpf.loc(y), witness={"setup.cfg": "[bumpver:file_patterns]\nsrc/mod_*/__init__.py =\n    __version__ = \"{version}\""})
         ctx.check("R5", not positional, "_parse_cfg_file_patterns: all lines of a value are candidates (no positional selection)",
                   "config._parse_cfg_file_patterns: lines of a file_patterns value are selected by position",
                   f"`{txt[:120]}`: with `{unparse(positional[0]) if positional else ''}` a pattern written on the key line (`README.md = version {{version}}`) is dropped, "
